@@ -1,5 +1,5 @@
 """Declarations of the harness entry points added after the forth wrapper (kept apart so node.py stays small)."""
-from ctypes import POINTER, c_char_p, c_double, c_int, c_long, c_ulong, c_void_p
+from ctypes import POINTER, byref, c_char_p, c_double, c_int, c_long, c_ulong, c_void_p
 
 
 def declare(node, sig):
@@ -49,6 +49,9 @@ def declare(node, sig):
     sig("aws_gen_calls", c_long, c_long)
     sig("aws_virtual", c_long, c_long, c_long, c_char_p)
     sig("aws_materialise", c_long, c_long)
+    sig("aws_alloc_supported", c_int)
+    sig("aws_alloc_arm", None, c_long)
+    sig("aws_alloc_disarm", c_int, POINTER(c_long))
     sig("aws_lb_new", c_long, c_char_p, c_long, c_double)
     sig("aws_lb_cmd", c_int, c_long, c_int, c_long, c_double, c_double, c_char_p, c_long)
     sig("aws_lb_snapshot", c_long, c_long)
@@ -246,6 +249,19 @@ class Mixin:
 
     def virtual(self, gen, cache, key):
         return self._h(self.lib.aws_virtual(gen, cache, key.encode()))
+
+    # ---------------------------------------------------------------- allocation seam
+    def alloc_supported(self):
+        return bool(self.lib.aws_alloc_supported())
+
+    def alloc_arm(self, countdown):
+        self.lib.aws_alloc_arm(countdown)
+
+    def alloc_disarm(self):
+        """-> (fired, allocations seen while armed)"""
+        seen = c_long(0)
+        fired = self.lib.aws_alloc_disarm(byref(seen))
+        return bool(fired), seen.value
 
     # ---------------------------------------------------------------- LayoutBuilder
     LB = {"null": 0, "boolean": 1, "int64": 2, "float64": 3, "complex": 4, "string": 5, "bytestring": 6, "begin_list": 7,
